@@ -62,23 +62,20 @@ SPEC = {
                     'the configuration of a processor / plugin instance does not change during its life (a configuration change makes libocr build a new plugin instance)',
                     'the model follows the repaired code (F08, F09 are committed in /repo; the pre-repair functions are kept as _unfixed and refuted)'],
     'level_text': 'Proof: 70 closed Coq theorems. 32 property theorems over the executable model: the median of any list of >= 2f+1 values with <= f faulty ones lies '
-                  'between the honest minimum and maximum, also component-wise for fee updates and timestamps (C14_median_robust, _fee_update, _pair); every aggregated '
-                  'key met its 2f+1 threshold (C14_threshold: iff, C14_threshold_value); a gas / token price is the median-derived value of the accepted observations '
-                  '(C14_gas_price, C14_token_price, _robust); Deviates as an integer inequality incl. zero cases and symmetry (C14_deviates_spec / _sym / _zero); '
-                  'USD-per-unit-gas floor bounds and the 112-bit packing round trip (C14_units_usd, C14_units_packing); a price is selected iff no stored value, '
-                  'heartbeat elapsed or deviation, output strictly sorted by key (C14_selection_gas, _token, C14_order_meaning); validated observations contain no null '
-                  'big integer (C14_validated_no_null_*). Histories, for every configuration, initial previous outcome and round list on one long-lived processor: round '
-                  "k equals the processor run on round k's role map and observations ALONE (C14_history_round_gas / _token, C14_history_prev_irrelevant), so every price "
-                  "of every round satisfies the derivation, robustness and selection theorems over THAT round's accepted observations (C14_history_gas_current, "
-                  '_token_current, _token_robust, _plugin_prices); a round without consensus hands back no price; C14_history_stale_variant_refuted. Unrepaired code '
-                  "refuted: F08 (aggregator without agreed f took a single oracle's value), gas threshold, F09 (null big integers passed validation). Judge soundness (38 "
-                  "C14_judge_*): for each of the 10 sinks the executable property accepts the model's output and implies the Prop-level clause; the order clause is "
-                  'premise-free for every price list. Correspondence, every run: real Deviates, CalculateUsdPerUnitGas, To / FromPackedFee, Median, both processors '
-                  '(ValidateObservation + Outcome) and commit.Plugin (report PriceUpdates = outcome prices); ONE chainfee / tokenprice Processor from NewProcessor and '
-                  'ONE commit.Plugin from NewPlugin kept over 3..10 rounds with the previous outcome threaded and destination store, role map, f values, clock (+-1 ns at '
-                  'the frequency, backwards) and observer counts changing. Translation tie (14 theorems, C14_gen.v): Deviates, CalculateUsdPerUnitGas, ToPackedFee, '
-                  'FromPackedFee, the generic Median and TwoFPlus1 are re-translated from source and the property statements restated over them. Partial: negative '
-                  'Deviates operands and operands outside the packing range are compared with the model only.',
+                  'between the honest minimum and maximum, also component-wise for fee updates and timestamps (C14_median_robust*); every aggregated key met its 2f+1 '
+                  'threshold (C14_threshold: iff); a gas / token price is the median-derived value of the accepted observations (C14_gas_price, C14_token_price); '
+                  'Deviates as an integer inequality; USD-per-unit-gas floor bounds and the 112-bit packing round trip (C14_units_*); a price is selected iff no stored '
+                  'value, heartbeat elapsed or deviation, output strictly sorted by key (C14_selection_*); validated observations contain no null big integer. Histories, '
+                  "for every configuration, initial previous outcome and round list on one long-lived processor: round k equals the processor run on round k's role map "
+                  'and observations ALONE (C14_history_round_*, C14_history_prev_irrelevant), so every price of every round satisfies the derivation, robustness and '
+                  "selection theorems over THAT round's accepted observations (C14_history_*_current); a round without consensus hands back no price. Unrepaired code "
+                  "refuted: F08 (aggregator without agreed f took a single oracle's value), F09 (null big integers passed validation). Judge soundness (38 C14_judge_*): "
+                  "for each of the 10 sinks the executable property accepts the model's output and implies the Prop-level clause; the order clause is premise-free. "
+                  'Correspondence, every run: the real leaf functions, both processors (ValidateObservation + Outcome) and commit.Plugin (report PriceUpdates = outcome '
+                  'prices); ONE chainfee / tokenprice Processor from NewProcessor and ONE commit.Plugin from NewPlugin kept over 3..10 rounds with the previous outcome '
+                  'threaded and destination store, role map, f values, clock and observer counts changing. Translation tie (14 theorems, C14_gen.v): Deviates, '
+                  'CalculateUsdPerUnitGas, ToPackedFee, FromPackedFee, the generic Median and TwoFPlus1 are re-translated. Partial: negative Deviates operands and '
+                  'operands outside the packing range are compared with the model only.',
     'level_note': 'Trusted: Coq kernel, hand-written model and theorem statements, differential harness, leaf translator. Specific: home-chain role lookups are a '
                   'scripted fake; big.Int arithmetic (Mul, Div = Euclidean, Lsh, Rsh, Or, And, Cmp) behaves as documented (Z in the model; the translator does not model '
                   'division by zero or nil operands); time.Time as Unix nanoseconds within 1678..2262, no monotonic readings; token ids are fixed-width hex so that Go '
